@@ -1,5 +1,6 @@
 import BdModel.Sched.Model
 import BdModel.Sched.Retry
+import BdModel.Sched.AgentRun
 import Driver.Util
 /-
   Deterministic chooser over the fine system for the correspondence runs: after every harness
@@ -113,6 +114,7 @@ def snapLine (c : Cfg) (s : State) : String :=
   " fl=" ++ joinNat fl ++
   " ov=" ++ ovName (overall c s) ++
   " pp=" ++ (match s.loop with | .launching j => toString j | _ => "") ++
+  " ag=" ++ ovName (agentStatus c true s) ++
   " ex=" ++ joinNat (r.map (fun i => (s.nd i).execs)) ++
   " hl=" ++ joinNat (s.hlog.map hIdx)
 
